@@ -20,6 +20,8 @@ Record OInv (ap : list (Z * params)) (s : state) : Prop := {
   oi_pcnt : forall a i pr, find_pair a i (pairs s) = Some pr -> i <= cnt (last_pair s) a;
   oi_opair : forall e, In e (orders s) -> o_pair (fst e) <= cnt (last_pair s) (o_app (fst e));
   oi_rem : forall e, In e (orders s) -> 0 <= o_rem (fst e) <= o_offer (fst e);
+  oi_app : forall e, In e (orders s) -> get_params s (o_app (fst e)) <> None;
+  oi_pair : forall e, In e (orders s) -> find_pair (o_app (fst e)) (o_pair (fst e)) (pairs s) <> None;
   oi_esc : forall a p d, led s (Escrow a p) d = owed s a p d + surplus s a p d;
   oi_owed : forall a p d, owed s a p d = osum ap a p d (orders s) }.
 
@@ -30,11 +32,12 @@ Definition EscFrame (s s' : state) : Prop :=
 
 Lemma oinv_frame ap s s' : EscFrame s s' -> OInv ap s -> OInv ap s'.
 Proof.
-  intros (A & B & C & D & E & F & G) HI. destruct HI as [[HA HS] H2 H3 H4 H5 H6 H7 H8].
-  constructor; try rewrite B; try rewrite C; try rewrite D; try assumption.
+  intros (A & B & C & D & E & F & G) HI. destruct HI as [[HA HS] H2 H3 H4 H5 H6 Ha Hp' H7 H8].
+  constructor; try (rewrite ?B, ?C, ?D; assumption).
   - split; [congruence|rewrite B; exact HS].
+  - intros e He. unfold get_params. rewrite A. rewrite B in He. apply (Ha e He).
   - intros a p d. rewrite G, E, F. apply H7.
-  - intros a p d. rewrite E. apply H8.
+  - intros a p d. rewrite E, B. apply H8.
 Qed.
 
 Lemma send_escrow_frame l a b d x l' : send l a b d x = Ok l' -> is_escrow a = false -> is_escrow b = false ->
@@ -126,7 +129,7 @@ Proof.
   pose proof (finish_calc_key rate e st) as Hk. rewrite Ec in Hk. cbn [fst] in Hk.
   destruct (key_fields _ _ Hk) as (Ka & Kp & Ki).
   pose proof (finish_calc_status rate e st El) as Hst. rewrite Ec in Hst. cbn [fst] in Hst.
-  destruct HI as [[HA HS] H2 H3 H4 H5 H6 H7 H8].
+  destruct HI as [[HA HS] H2 H3 H4 H5 H6 Ha Hp' H7 H8].
   pose proof (proj1 (Forall_forall _ _) HS e Hin) as He. cbn beta in He. rewrite <- HA in He.
   pose proof (finish_calc_law rate e st (finish_rate s e rate Er e He eq_refl) El Ht) as L. rewrite Ec in L. cbn [fst snd] in L.
   destruct L as (_ & Lsum & _ & _).
@@ -145,6 +148,8 @@ Proof.
     rewrite Ka, Kp. apply H5; exact Hin.
   - intros x Hx. destruct (in_upd _ _ _ _ Hx) as [->|Hx']; [|apply H6; exact Hx'].
     rewrite Kr, Ko. apply H6; exact Hin.
+  - intros x Hx. unfold get_params. proj_cbn. destruct (in_upd _ _ _ _ Hx) as [->|Hx']; [rewrite Ka|]; apply Ha; assumption.
+  - intros x Hx. destruct (in_upd _ _ _ _ Hx) as [->|Hx']; [rewrite Ka, Kp|]; apply Hp'; assumption.
   - intros a p d. rewrite Hl. rewrite at_other by reflexivity. rewrite at_other by reflexivity. rewrite at_escrow.
     unfold fadd3. rewrite H7. destruct ((o_app (fst e) =? a) && (o_pair (fst e) =? p) && (o_odenom (fst e) =? d)); lia.
   - intros a p d. unfold osum. rewrite (zsum_upd (share ap a p d) (ekey e) e e' (orders s) H2 Hf Hk).
@@ -179,7 +184,7 @@ Proof.
   destruct (find_pair_in _ _ _ _ Hpr) as (_ & Pa & Pi).
   assert (Hfresh : ~ In (m_app m, p_id pr, p_last_order pr + 1) (map ekey (orders s))).
   { rewrite Pi. eapply fresh_key; eauto. lia. }
-  destruct HI as [[HA HS] H2 H3 H4 H5 H6 H7 H8].
+  destruct HI as [[HA HS] H2 H3 H4 H5 H6 Ha Hp' H7 H8].
   set (newo := mkOrder (m_app m) (p_id pr) (p_last_order pr + 1) (m_owner m) (m_buy m) typ (m_odenom m) (m_ddenom m)
                        offer offer 0 price (m_amt m) (m_amt m) (p_batch pr) (now + m_life m) 1) in *.
   constructor; proj_cbn.
@@ -198,6 +203,10 @@ Proof.
   - intros x Hx. destruct (in_ins _ _ _ Hx) as [->|Hx']; [|apply H5; exact Hx'].
     cbn [fst newo o_app o_pair]. rewrite Pi. eapply H4; eauto.
   - intros x Hx. destruct (in_ins _ _ _ Hx) as [->|Hx']; [|apply H6; exact Hx']. cbn. lia.
+  - intros x Hx. unfold get_params. proj_cbn. destruct (in_ins _ _ _ Hx) as [->|Hx']; [|apply Ha; exact Hx'].
+    cbn [fst newo o_app]. unfold get_params in HP. rewrite HP. discriminate.
+  - intros x Hx. rewrite find_pair_ins. cbn [p_app p_id]. destruct (_ && _); [discriminate|].
+    destruct (in_ins _ _ _ Hx) as [->|Hx']; [|apply Hp'; exact Hx']. cbn [fst newo o_app o_pair]. rewrite Pi, Hpr. discriminate.
   - intros a p d. rewrite Hl. rewrite at_escrow. rewrite at_other by reflexivity.
     unfold fadd3. rewrite H7. destruct ((m_app m =? a) && (m_pair m =? p) && (m_odenom m =? d)); lia.
   - intros a p d. unfold osum. rewrite zsum_ins by exact Hfresh. fold (osum ap a p d (orders s)). rewrite <- H8.
@@ -246,12 +255,12 @@ Proof.
       unfold escrow_share, fee_reserve. cbn. lia.
 Qed.
 
-Lemma oi_mm_tail s m pr bt st now s' :
-  OInv ap s -> find_pair (mm_app m) (mm_pair m) (pairs s) = Some pr ->
+Lemma oi_mm_tail s m pr bt st now s' P :
+  OInv ap s -> get_params s (mm_app m) = Some P -> find_pair (mm_app m) (mm_pair m) (pairs s) = Some pr ->
   existsb (fun t : Z * Z * Z => snd t <? 0) (bt ++ st) = false ->
   mm_tail s m pr bt st now = Ok s' -> OInv ap s'.
 Proof.
-  intros HI Hpr Eneg H. pose proof (si_mm_tail ap s m pr bt st now s' (oi_si _ _ HI) Hpr Eneg H) as HSI.
+  intros HI HP Hpr Eneg H. pose proof (si_mm_tail ap s m pr bt st now s' (oi_si _ _ HI) Eneg H) as HSI.
   destruct (find_pair_in _ _ _ _ Hpr) as (_ & Pa & Pi).
   unfold mm_tail, obind in H.
   destruct (ssend s _ _ _ _) as [s2| |] eqn:E2; try discriminate.
@@ -262,7 +271,7 @@ Proof.
   destruct (mm_place _ _ _ _ pr false st last1 st1) as [[st2 ids2] last2] eqn:M2.
   injection H as <-.
   rewrite existsb_app in Eneg. apply orb_false_iff in Eneg. destruct Eneg as [N1 N2].
-  destruct HI as [[HA HS] H2 H3 H4 H5 H6 H7 H8].
+  destruct HI as [[HA HS] H2 H3 H4 H5 H6 Ha Hp' H7 H8].
   assert (Hid0 : forall k, In k (map ekey (orders s)) -> fst (fst k) = mm_app m -> snd (fst k) = p_id pr -> snd k <= p_last_order pr).
   { intros k Hk Ka Kp. apply in_map_iff in Hk. destruct Hk as (x & <- & Hx). unfold ekey, okey in *. cbn [fst snd] in *.
     apply (H3 x pr Hx). rewrite Ka, Kp, Pi. exact Hpr. }
@@ -289,6 +298,10 @@ Proof.
   - intros x Hx. destruct (Hnew x Hx) as [Hx0|(Xa & Xp & _)]; [apply H5; exact Hx0|].
     rewrite Xa, Xp, Pi. eapply H4; eauto.
   - intros x Hx. destruct (Hnew x Hx) as [Hx0|Hx0]; [apply H6; exact Hx0|]. lia.
+  - intros x Hx. unfold get_params. proj_cbn. destruct (Hnew x Hx) as [Hx0|(Xa & _)]; [apply Ha; exact Hx0|].
+    rewrite Xa. unfold get_params in HP. rewrite HP. discriminate.
+  - intros x Hx. rewrite find_pair_ins. cbn [p_app p_id]. destruct (_ && _); [discriminate|].
+    destruct (Hnew x Hx) as [Hx0|(Xa & Xp & _)]; [apply Hp'; exact Hx0|]. rewrite Xa, Xp, Pi, Hpr. discriminate.
   - intros a p d. rewrite S3, S2. rewrite !at_escrow. rewrite !at_other by reflexivity.
     unfold fadd3. rewrite H7.
     destruct ((mm_app m =? a) && (p_id pr =? p) && (p_quote pr =? d)), ((mm_app m =? a) && (p_id pr =? p) && (p_base pr =? d)); lia.
@@ -304,7 +317,7 @@ Proof.
   intros HI Hf Hl Hp Hp0 Hr0. pose proof (si_fill_book ap s k o g matched paid recv (oi_si _ _ HI) Hf Hl Hp Hp0 Hr0) as HSI.
   destruct (find_order_in _ _ _ Hf) as [Hin Hk]. destruct k as [[a0 p0] i0].
   unfold ekey, okey in Hk. cbn [fst] in Hk. injection Hk as Ka Kp Ki.
-  destruct HI as [[HA HS] H2 H3 H4 H5 H6 H7 H8]. unfold fill_book in *.
+  destruct HI as [[HA HS] H2 H3 H4 H5 H6 Ha Hp' H7 H8]. unfold fill_book in *.
   set (e' := (set_fill o matched paid recv (o_status o), fill_ghost g matched paid recv)) in *.
   assert (Hk' : ekey e' = (a0, p0, i0)). { unfold ekey, okey, e'. cbn. congruence. }
   constructor; proj_cbn.
@@ -314,6 +327,8 @@ Proof.
   - exact H4.
   - intros x Hx. destruct (in_upd _ _ _ _ Hx) as [->|Hx']; [|apply H5; exact Hx']. apply (H5 (o, g) Hin).
   - intros x Hx. destruct (in_upd _ _ _ _ Hx) as [->|Hx']; [|apply H6; exact Hx']. specialize (H6 (o, g) Hin). cbn in *. lia.
+  - intros x Hx. unfold get_params. proj_cbn. destruct (in_upd _ _ _ _ Hx) as [->|Hx']; [|apply Ha; exact Hx']. apply (Ha (o, g) Hin).
+  - intros x Hx. destruct (in_upd _ _ _ _ Hx) as [->|Hx']; [|apply Hp'; exact Hx']. apply (Hp' (o, g) Hin).
   - intros a p d. unfold fadd3. rewrite H7. destruct ((a0 =? a) && (p0 =? p) && (o_odenom o =? d)); lia.
   - intros a p d. unfold osum. rewrite (zsum_upd (share ap a p d) (a0, p0, i0) (o, g) e' (orders s) H2 Hf Hk').
     fold (osum ap a p d (orders s)). rewrite <- H8. unfold fadd3, share, e'. cbn [fst set_fill o_app o_pair o_odenom].
@@ -327,7 +342,7 @@ Lemma oi_mark_status s k o g st :
 Proof.
   intros HI Hf Hl Ht. pose proof (si_mark_status ap s k o g st (oi_si _ _ HI) Hf Hl Ht) as HSI.
   destruct (find_order_in _ _ _ Hf) as [Hin Hk].
-  destruct HI as [[HA HS] H2 H3 H4 H5 H6 H7 H8].
+  destruct HI as [[HA HS] H2 H3 H4 H5 H6 Ha Hp' H7 H8].
   set (e' := (set_status o st, g)) in *.
   assert (Hk' : ekey e' = k). { rewrite <- Hk. reflexivity. }
   constructor; proj_cbn; fold e'.
@@ -337,6 +352,8 @@ Proof.
   - exact H4.
   - intros x Hx. destruct (in_upd _ _ _ _ Hx) as [->|Hx']; [|apply H5; exact Hx']. apply (H5 (o, g) Hin).
   - intros x Hx. destruct (in_upd _ _ _ _ Hx) as [->|Hx']; [|apply H6; exact Hx']. apply (H6 (o, g) Hin).
+  - intros x Hx. unfold get_params. proj_cbn. destruct (in_upd _ _ _ _ Hx) as [->|Hx']; [|apply Ha; exact Hx']. apply (Ha (o, g) Hin).
+  - intros x Hx. destruct (in_upd _ _ _ _ Hx) as [->|Hx']; [|apply Hp'; exact Hx']. apply (Hp' (o, g) Hin).
   - exact H7.
   - intros a p d. unfold osum. rewrite (zsum_upd (share ap a p d) k (o, g) e' (orders s) H2 Hf Hk').
     fold (osum ap a p d (orders s)). rewrite <- H8. unfold share, e'. cbn [fst set_status o_app o_pair o_odenom].
@@ -346,14 +363,14 @@ Qed.
 Lemma oi_esc_in s app pair from d x s' : OInv ap s -> is_escrow from = false -> esc_in s app pair from d x = Ok s' -> OInv ap s'.
 Proof.
   intros HI Hfr H. destruct (esc_in_eff _ _ _ _ _ _ _ H) as (l & X0 & Hl & ->).
-  destruct HI as [[HA HS] H2 H3 H4 H5 H6 H7 H8]. constructor; proj_cbn; try assumption; [split; assumption|].
+  destruct HI as [[HA HS] H2 H3 H4 H5 H6 Ha Hp' H7 H8]. constructor; proj_cbn; try assumption; [split; assumption|].
   intros a p d'. rewrite Hl, at_escrow, (at_other from) by exact Hfr. unfold fadd3. rewrite H7.
   destruct ((app =? a) && (pair =? p) && (d =? d')); lia.
 Qed.
 Lemma oi_esc_out s app pair to d x s' : OInv ap s -> is_escrow to = false -> esc_out s app pair to d x = Ok s' -> OInv ap s'.
 Proof.
   intros HI Hto H. destruct (esc_out_eff _ _ _ _ _ _ _ H) as (l & X0 & Hl & ->).
-  destruct HI as [[HA HS] H2 H3 H4 H5 H6 H7 H8]. constructor; proj_cbn; try assumption; [split; assumption|].
+  destruct HI as [[HA HS] H2 H3 H4 H5 H6 Ha Hp' H7 H8]. constructor; proj_cbn; try assumption; [split; assumption|].
   intros a p d'. rewrite Hl, at_escrow, (at_other to) by exact Hto. unfold fadd3. rewrite H7.
   destruct ((app =? a) && (pair =? p) && (d =? d')); lia.
 Qed.
@@ -361,7 +378,7 @@ Qed.
 Lemma oi_set_pair_after s pr env :
   OInv ap s -> find_pair (p_app pr) (p_id pr) (pairs s) = Some pr -> OInv ap (set_pair_after s pr env).
 Proof.
-  intros HI Hpr. destruct HI as [[HA HS] H2 H3 H4 H5 H6 H7 H8]. constructor; proj_cbn; try assumption; [split; assumption| |].
+  intros HI Hpr. destruct HI as [[HA HS] H2 H3 H4 H5 H6 Ha Hp' H7 H8]. constructor; proj_cbn; try assumption; [split; assumption| | |].
   - intros x pr0 Hx Hp. rewrite find_pair_ins in Hp. cbn [p_app p_id] in Hp.
     destruct ((p_app pr =? o_app (fst x)) && (p_id pr =? o_pair (fst x))) eqn:E; [|eapply H3; eauto].
     injection Hp as <-. cbn [p_last_order]. apply (H3 x pr Hx).
@@ -369,16 +386,19 @@ Proof.
   - intros a i pr0 Hp. rewrite find_pair_ins in Hp. cbn [p_app p_id] in Hp.
     destruct ((p_app pr =? a) && (p_id pr =? i)) eqn:E; [|eapply H4; eauto].
     apply (H4 a i pr). replace a with (p_app pr) by lia. replace i with (p_id pr) by lia. exact Hpr.
+  - intros x Hx. rewrite find_pair_ins. destruct (_ && _); [discriminate|apply Hp'; exact Hx].
 Qed.
 
 Lemma oi_begin_app s app : OInv ap s -> OInv ap (begin_app app s).
 Proof.
   intros HI. pose proof (si_begin_app ap s app (oi_si _ _ HI)) as HSI.
-  destruct HI as [[HA HS] H2 H3 H4 H5 H6 H7 H8]. unfold begin_app in *. constructor; proj_cbn; try assumption.
+  destruct HI as [[HA HS] H2 H3 H4 H5 H6 Ha Hp' H7 H8]. unfold begin_app in *. constructor; proj_cbn; try assumption.
   - apply nodup_filter_keys, H2.
   - intros x pr Hx. apply filter_In in Hx. apply H3, Hx.
   - intros x Hx. apply filter_In in Hx. apply H5, Hx.
   - intros x Hx. apply filter_In in Hx. apply H6, Hx.
+  - intros x Hx. apply filter_In in Hx. apply Ha, Hx.
+  - intros x Hx. apply filter_In in Hx. apply Hp', Hx.
   - intros a p d. rewrite H8. unfold osum. symmetry. apply zsum_filter_zero.
     intros x _ Hx. apply share_term. apply negb_false_iff in Hx. apply andb_true_iff in Hx. apply Hx.
 Qed.
@@ -389,10 +409,10 @@ Proof.
   destruct (get_params s app) as [P|]; [|discriminate].
   repeat match type of H with (if ?c then _ else _) = _ => destruct c; [discriminate|] end.
   unfold obind in H. destruct (ssend s _ _ _ _) as [s1| |] eqn:E1; try discriminate. injection H as <-. sends.
-  destruct HI as [[HA HS] H2 H3 H4 H5 H6 H7 H8]. proj_cbn.
+  destruct HI as [[HA HS] H2 H3 H4 H5 H6 Ha Hp' H7 H8]. proj_cbn.
   set (id := match aget (last_pair s) app with Some i => i | None => 0 end + 1) in *.
   assert (Hid : id = cnt (last_pair s) app + 1) by reflexivity.
-  constructor; proj_cbn; try assumption; [split; assumption| | | |].
+  constructor; proj_cbn; try assumption; [split; assumption| | | | |].
   - intros x pr Hx Hp. rewrite find_pair_ins in Hp. cbn [p_app p_id] in Hp.
     destruct ((app =? o_app (fst x)) && (id =? o_pair (fst x))) eqn:Ek; [|eapply H3; eauto].
     specialize (H5 x Hx). replace (o_app (fst x)) with app in H5 by lia. lia.
@@ -402,6 +422,7 @@ Proof.
     + specialize (H4 a i pr Hp). destruct (app =? a) eqn:Ea; [|exact H4]. replace a with app in H4 by lia. lia.
   - intros x Hx. rewrite cnt_aset. specialize (H5 x Hx). destruct (app =? o_app (fst x)) eqn:Ea; [|exact H5].
     replace (o_app (fst x)) with app in H5 by lia. lia.
+  - intros x Hx. rewrite find_pair_ins. destruct (_ && _); [discriminate|apply Hp'; exact Hx].
   - intros a p d. rewrite (send_escrow_frame _ _ _ _ _ _ Hl eq_refl eq_refl). apply H7.
 Qed.
 
@@ -411,7 +432,7 @@ Proof.
   - exact oi_finish.
   - exact oi_place.
   - intros s0 a o p HI. eapply oinv_frame; [|exact HI]. unfold EscFrame. proj_cbn. repeat (split; [reflexivity|]). reflexivity.
-  - exact oi_mm_tail.
+  - intros; eapply oi_mm_tail; eauto.
   - exact oi_fill_book.
   - exact oi_mark_status.
   - exact oi_esc_in.
